@@ -40,6 +40,10 @@ def execHex (cfg : PureCfg) : List String → String
     match parseHexTok h with
     | some x => s!"ok {x.len} {String.ofList (HD.print x.toBytes)} {showBytes x.toBytes} ; {x.toBytes.length} {showBytes x.toBytes}"
     | none => "bad-op"
+  | ["empty"] =>
+    -- `Hex::empty()`
+    let x : Hex := default
+    s!"ok {x.len} {String.ofList (HD.print x.toBytes)} {showBytes x.toBytes} {x.len == 0} {decide (x.toBytes = (Hex.ofBytes []).toBytes)} ; ok 0 -- x true true"
   | ["index", h, i] =>
     match parseHexTok h, parseNat i with
     | some x, some i => showOptByte (x.index i) ++ " ; " ++ showOptByte (x.toBytes[i]?)
